@@ -774,6 +774,65 @@ theorem item_str_iff {h : Heap} {k : Nat} {v : PStr} : item h k = .str v ↔ h.k
   · rename_i hk; simp [hk]
   · rename_i hk; simp [hk]
 
+/-- one iteration of the merge loop at a valid mark `i` is `mergeAtId` on (children with identities, allocation counter) -/
+theorem smoothMerge_step {h h1 h3 : Heap} {t i a b : Nat} (hg : Good2 h) (hok : StrPairAt (view h t) i)
+    (hia : (h.kids t)[i]? = some a) (hib : (h.kids t)[i + 1]? = some b) (he : extract h b = .ok h1)
+    (hr : replaceWith (alloc h1 .str (h1.val a ++ h1.val b)).1 a
+      [.node (alloc h1 .str (h1.val a ++ h1.val b)).2] = .ok h3) :
+    Good2 h3 ∧ (idView h3 t, h3.next) = mergeAtId (idView h t, h.next) i ∧
+    view h3 t = mergeAt (view h t) i ∧ SmoothFrame h h3 (· = t) := by
+  obtain ⟨va, vb, hva, hvb⟩ := hok
+  obtain ⟨pre, post, hk, hlen⟩ := split_two _ _ _ _ hia hib
+  subst hlen
+  obtain ⟨hg3, hk3, hko3, hn3, hkn3, hvn3, hold3, hpar3⟩ := smooth_step hg hk he hr
+  have hia' : item h a = .str va := by
+    have : (view h t)[pre.length]? = some (item h a) := by unfold view; rw [List.getElem?_map, hia]; rfl
+    rw [this] at hva; exact Option.some.inj hva
+  have hib' : item h b = .str vb := by
+    have : (view h t)[pre.length + 1]? = some (item h b) := by unfold view; rw [List.getElem?_map, hib]; rfl
+    rw [this] at hvb; exact Option.some.inj hvb
+  have hka := item_str_iff.mp hia'
+  have hkb := item_str_iff.mp hib'
+  have hlt : ∀ k ∈ h.kids t, k < h.next := fun k hk' => good_kid_lt_next hg.1 hk'
+  have hsame : ∀ k ∈ h.kids t, (k, item h3 k) = (k, item h k) := by
+    intro k hk'
+    have := hold3 k (by have := hlt k hk'; omega)
+    rw [item_congr this.1 this.2]
+  have hnew : item h3 h.next = .str (va ++ vb) :=
+    item_str_iff.mpr ⟨hkn3, by rw [hvn3, hka.2, hkb.2]⟩
+  have hid3 : idView h3 t = mergeAtL (idView h t) pre.length h.next := by
+    have hm := mergeAtL_append (pre.map (fun k => (k, item h k))) a b h.next va vb
+      (post.map (fun k => (k, item h k)))
+    rw [List.length_map] at hm
+    unfold idView
+    rw [hk3, hk, List.map_append, List.map_cons, List.map_append, List.map_cons, List.map_cons, hia', hib',
+      hm, hnew]
+    congr 1
+    · apply List.map_congr_left
+      intro k hk'; exact hsame k (by rw [hk]; simp [hk'])
+    · congr 1
+      apply List.map_congr_left
+      intro k hk'; exact hsame k (by rw [hk]; simp [hk'])
+  have hview3 : view h3 t = mergeAt (view h t) pre.length := by
+    rw [← idView_snd, hid3, map_snd_mergeAtL, idView_snd]
+  refine ⟨hg3, by simp only [mergeAtId, hid3, hn3], hview3, ?_⟩
+  constructor
+  · exact hko3
+  · omega
+  · intro k hk'; exact hold3 k (by omega)
+  · intro k h1k h2k
+    have : k = h.next := by omega
+    rw [this]; exact hkn3
+  · intro k hk'
+    rw [hpar3 k, if_neg (by omega)]
+    by_cases hab : k = a ∨ k = b
+    · rw [if_pos hab]
+      obtain ⟨w, hwf⟩ := hg.1
+      rcases hab with rfl | rfl
+      · exact Or.inr ⟨t, rfl, hwf.kid_parent t k (by rw [hk]; simp), hka.1, rfl⟩
+      · exact Or.inr ⟨t, rfl, hwf.kid_parent t k (by rw [hk]; simp), hkb.1, rfl⟩
+    · rw [if_neg hab]; exact Or.inl rfl
+
 /-- **the merge loop is the fold of `mergeAtId`** over the marks, as long as each mark, when it is used, points at two
     plain strings — which processing them in reverse order guarantees (`marksOK_marks`) -/
 theorem smoothMerge_fold {t : Nat} : ∀ (ms : List Nat) (h h' : Heap), Good2 h → MarksOK (view h t) ms →
@@ -787,7 +846,7 @@ theorem smoothMerge_fold {t : Nat} : ∀ (ms : List Nat) (h h' : Heap), Good2 h 
     exact ⟨rfl, hg, SmoothFrame.refl _ _⟩
   | cons i is ih =>
     intro h h' hg hok hs
-    obtain ⟨⟨va, vb, hva, hvb⟩, hok'⟩ := hok
+    obtain ⟨hpair, hok'⟩ := hok
     simp only [smoothMerge] at hs
     split at hs
     · rename_i a b hia hib
@@ -800,61 +859,11 @@ theorem smoothMerge_fold {t : Nat} : ∀ (ms : List Nat) (h h' : Heap), Good2 h 
         | error e => simp only [hr] at hs; cases hs
         | ok h3 =>
           simp only [hr] at hs
-          obtain ⟨pre, post, hk, hlen⟩ := split_two _ _ _ _ hia hib
-          subst hlen
-          obtain ⟨hg3, hk3, hko3, hn3, hkn3, hvn3, hold3, hpar3⟩ := smooth_step hg hk he hr
-          have hia' : item h a = .str va := by
-            have : (view h t)[pre.length]? = some (item h a) := by unfold view; rw [List.getElem?_map, hia]; rfl
-            rw [this] at hva; exact Option.some.inj hva
-          have hib' : item h b = .str vb := by
-            have : (view h t)[pre.length + 1]? = some (item h b) := by unfold view; rw [List.getElem?_map, hib]; rfl
-            rw [this] at hvb; exact Option.some.inj hvb
-          have hka := item_str_iff.mp hia'
-          have hkb := item_str_iff.mp hib'
-          have hlt : ∀ k ∈ h.kids t, k < h.next := fun k hk' => good_kid_lt_next hg.1 hk'
-          have hsame : ∀ k ∈ h.kids t, (k, item h3 k) = (k, item h k) := by
-            intro k hk'
-            have := hold3 k (by have := hlt k hk'; omega)
-            rw [item_congr this.1 this.2]
-          have hnew : item h3 h.next = .str (va ++ vb) :=
-            item_str_iff.mpr ⟨hkn3, by rw [hvn3, hka.2, hkb.2]⟩
-          have hid3 : idView h3 t = mergeAtL (idView h t) pre.length h.next := by
-            have hm := mergeAtL_append (pre.map (fun k => (k, item h k))) a b h.next va vb
-              (post.map (fun k => (k, item h k)))
-            rw [List.length_map] at hm
-            unfold idView
-            rw [hk3, hk, List.map_append, List.map_cons, List.map_append, List.map_cons, List.map_cons, hia', hib',
-              hm, hnew]
-            congr 1
-            · apply List.map_congr_left
-              intro k hk'; exact hsame k (by rw [hk]; simp [hk'])
-            · congr 1
-              apply List.map_congr_left
-              intro k hk'; exact hsame k (by rw [hk]; simp [hk'])
-          have hview3 : view h3 t = mergeAt (view h t) pre.length := by
-            rw [← idView_snd, hid3, map_snd_mergeAtL, idView_snd]
+          obtain ⟨hg3, hid3, hview3, fr0⟩ := smoothMerge_step hg hpair hia hib he hr
           rw [← hview3] at hok'
           obtain ⟨e, hg', fr⟩ := ih h3 h' hg3 hok' hs
-          have fr0 : SmoothFrame h h3 (· = t) := by
-            constructor
-            · exact hko3
-            · omega
-            · intro k hk'; exact hold3 k (by omega)
-            · intro k h1k h2k
-              have : k = h.next := by omega
-              rw [this]; exact hkn3
-            · intro k hk'
-              rw [hpar3 k, if_neg (by omega)]
-              by_cases hab : k = a ∨ k = b
-              · rw [if_pos hab]
-                obtain ⟨w, hwf⟩ := hg.1
-                rcases hab with rfl | rfl
-                · exact Or.inr ⟨t, rfl, hwf.kid_parent t k (by rw [hk]; simp), hka.1, rfl⟩
-                · exact Or.inr ⟨t, rfl, hwf.kid_parent t k (by rw [hk]; simp), hkb.1, rfl⟩
-              · rw [if_neg hab]; exact Or.inl rfl
           refine ⟨?_, hg', fr0.trans fr⟩
-          rw [e, List.foldl_cons]
-          simp only [mergeAtId, hid3, hn3]
+          rw [e, List.foldl_cons, hid3]
     · cases hs
 
 /-- **`_smooth_children`, exactly**: the children list of `t` — identities included — and the allocation counter are
@@ -989,5 +998,174 @@ theorem smooth_effect {h h' : Heap} {t : Nat} (hg : Good2 h) (hs : smooth h t = 
   intro q hqd
   obtain ⟨n, _, e⟩ := hid q hqd
   rw [← idView_snd, e, squashId_snd, idView_snd]
+
+end BS.Heap
+
+namespace BS.Heap
+
+/-! ## 6. `smooth()` never fails on a consistent forest -/
+
+/-- the parent walk can only answer "yes" at the start or by arriving from a child -/
+theorem isAnc_true_imp (h : Heap) (a : Nat) : ∀ (f x : Nat), isAnc h a f x = true → x = a ∨ ∃ c, h.parent c = some a := by
+  intro f
+  induction f with
+  | zero => intro x hx; simp only [isAnc, decide_eq_true_eq] at hx; exact Or.inl hx
+  | succ f ih =>
+    intro x hx
+    simp only [isAnc] at hx
+    by_cases hxa : x = a
+    · exact Or.inl hxa
+    · simp only [hxa, if_false] at hx
+      cases hp : h.parent x with
+      | none => simp [hp] at hx
+      | some q =>
+        simp only [hp] at hx
+        rcases ih q hx with rfl | hc
+        · exact Or.inr ⟨x, hp⟩
+        · exact Or.inr hc
+
+/-- `_insert` of an allocated, parentless, childless element into another allocated object never fails -/
+theorem insertCore_root_total {h : Heap} {p pos x : Nat} (hroot : h.parent x = none) (hxp : x ≠ p)
+    (hnc : ∀ c, h.parent c ≠ some x) (hx : x < h.next) (hp : p < h.next) :
+    ∃ h', insertCore h p pos x = .ok h' ∧ h'.kids p = (h.kids p).insertIdx (min pos (h.kids p).length) x := by
+  obtain ⟨h', g, e, _, _, hl⟩ := linkChild_linked h p (min pos (h.kids p).length) x (Nat.min_le_right _ _)
+  refine ⟨h', ?_, by rw [hl.kids p]; simp⟩
+  have hanc : isAnc h x h.cap p = false := by
+    cases hb : isAnc h x h.cap p with
+    | false => rfl
+    | true =>
+      rcases isAnc_true_imp h x _ _ hb with e | ⟨c, hc⟩
+      · exact absurd e.symm hxp
+      · exact absurd hc (hnc c)
+  have hguard : ¬ (isAnc h x h.cap p = true ∨ h.next ≤ x ∨ h.next ≤ p) := by
+    rw [hanc]; simp; omega
+  unfold insertCore
+  rw [if_neg hxp, if_neg hguard]
+  simp only [hroot]
+  exact e
+
+/-- `x.replace_with(y)` for an attached `x` and an allocated, parentless, childless `y` never fails -/
+theorem replaceWith_root_total {h : Heap} {x y p : Nat} (hg : Good h) (hp : h.parent x = some p)
+    (hy : h.kind y ≠ .soup) (hxy : y ≠ x) (hyr : h.parent y = none) (hyk : h.kids y = []) (hyn : y < h.next) :
+    ∃ h', replaceWith h x [.node y] = .ok h' := by
+  obtain ⟨w, hwf⟩ := hg
+  have hxmem := hwf.parent_kid x p hp
+  have hyp : y ≠ p := by intro e; subst e; rw [hyk] at hxmem; cases hxmem
+  have hpn : p < h.next := by
+    apply Classical.byContradiction
+    intro hn
+    have := (hwf.fresh p (by omega)).2.1
+    rw [this] at hxmem; cases hxmem
+  unfold replaceWith
+  simp only [hp]
+  have hne : ([Arg.node y] = [Arg.node x]) = False := by simp; exact hxy
+  have hself : ([Arg.node y].any (isSelf p)) = false := by simp [isSelf, hyp]
+  simp only [hne, if_false, hself, Bool.false_eq_true]
+  cases hidx : indexOf h p x with
+  | none =>
+    unfold indexOf at hidx
+    exact absurd hxmem (List.idxOf?_eq_none_iff.mp hidx)
+  | some i =>
+    simp only
+    obtain ⟨h1, he, hwf1, hk1, hpar1, hkind1, hval1, hnext1, _⟩ := extract_spec h w x hwf
+    simp only [he]
+    have hy1 : h1.kind y ≠ .soup := by rw [hkind1]; exact hy
+    have hroot1 : h1.parent y = none := by rw [hpar1]; simp [hyr]
+    have hnc1 : ∀ c, h1.parent c ≠ some y := by
+      intro c hc
+      rw [hpar1 c] at hc
+      split at hc
+      · cases hc
+      · have := hwf.parent_kid c y hc; rw [hyk] at this; cases this
+    obtain ⟨h3, hc3, hk3⟩ := insertCore_root_total (pos := i) hroot1 hyp hnc1 (by rw [hnext1]; exact hyn)
+      (by rw [hnext1]; exact hpn)
+    have hmem3 : y ∈ h3.kids p := by
+      rw [hk3, List.mem_insertIdx (Nat.min_le_right _ _)]; exact Or.inl rfl
+    cases hidx3 : indexOf h3 p y with
+    | none =>
+      unfold indexOf at hidx3
+      exact absurd hmem3 (List.idxOf?_eq_none_iff.mp hidx3)
+    | some j =>
+      refine ⟨h3, ?_⟩
+      unfold insert
+      simp only [insertArgs, insertArg1, hy1, if_false, insertElems, hc3, hidx3]
+
+/-- one iteration of the merge loop at a valid mark never fails -/
+theorem smoothMerge_step_total {h : Heap} {t i : Nat} (hg : Good2 h) (hok : StrPairAt (view h t) i) :
+    ∃ a b h1 h3, (h.kids t)[i]? = some a ∧ (h.kids t)[i + 1]? = some b ∧ extract h b = .ok h1 ∧
+      replaceWith (alloc h1 .str (h1.val a ++ h1.val b)).1 a
+        [.node (alloc h1 .str (h1.val a ++ h1.val b)).2] = .ok h3 := by
+  obtain ⟨va, vb, hva, hvb⟩ := hok
+  obtain ⟨w, hwf⟩ := hg.1
+  have hia : ∃ a, (h.kids t)[i]? = some a := by
+    unfold view at hva; rw [List.getElem?_map] at hva
+    cases hh : (h.kids t)[i]? with
+    | none => rw [hh] at hva; cases hva
+    | some a => exact ⟨a, rfl⟩
+  have hib : ∃ b, (h.kids t)[i + 1]? = some b := by
+    unfold view at hvb; rw [List.getElem?_map] at hvb
+    cases hh : (h.kids t)[i + 1]? with
+    | none => rw [hh] at hvb; cases hvb
+    | some b => exact ⟨b, rfl⟩
+  obtain ⟨a, hia⟩ := hia
+  obtain ⟨b, hib⟩ := hib
+  obtain ⟨pre, post, hk, _⟩ := split_two _ _ _ _ hia hib
+  have hnd := good_kids_nodup hg.1 t
+  rw [hk] at hnd
+  have hab : a ≠ b := fun e => (List.nodup_cons.mp (List.nodup_append.mp hnd).2.1).1 (by simp [e])
+  have hamem : a ∈ h.kids t := by rw [hk]; simp
+  have hat := hwf.kid_parent t a hamem
+  obtain ⟨h1, he, hwf1, hkids1, hpar1, hkind1, hval1, hnext1, _⟩ := extract_spec h w b hwf
+  have hg1 : Good2 h1 := ⟨⟨_, hwf1⟩, fun n hn => by rw [hkind1]; exact hg.2 n (by omega)⟩
+  generalize hv : h1.val a ++ h1.val b = v
+  obtain ⟨hg2, _⟩ := alloc_good2 hg1 .str v (Or.inl rfl)
+  obtain ⟨ha2, hap, hak, han, hakn, hako⟩ := alloc_fields h1 .str v
+  have halt : a < h.next := good_kid_lt_next hg.1 hamem
+  have hfr := hwf1.fresh h1.next (Nat.le_refl _)
+  obtain ⟨h3, hr⟩ := replaceWith_root_total (x := a) (y := h1.next) (p := t) hg2.1
+    (by rw [hap, hpar1 a]; simp [hab, hat]) (by rw [hakn]; decide) (by omega) (by rw [hap]; exact hfr.1)
+    (by rw [hak]; exact hfr.2.1) (by rw [han]; omega)
+  subst hv
+  exact ⟨a, b, h1, h3, hia, hib, he, by rw [ha2]; exact hr⟩
+
+theorem smoothMerge_total {t : Nat} : ∀ (ms : List Nat) (h : Heap), Good2 h → MarksOK (view h t) ms →
+    ∃ h', smoothMerge h t ms = .ok h' := by
+  intro ms
+  induction ms with
+  | nil => intro h _ _; exact ⟨h, rfl⟩
+  | cons i is ih =>
+    intro h hg hok
+    obtain ⟨hpair, hok'⟩ := hok
+    obtain ⟨a, b, h1, h3, hia, hib, he, hr⟩ := smoothMerge_step_total hg hpair
+    obtain ⟨hg3, _, hview3, _⟩ := smoothMerge_step hg hpair hia hib he hr
+    rw [← hview3] at hok'
+    obtain ⟨h', hs⟩ := ih h3 hg3 hok'
+    refine ⟨h', ?_⟩
+    simp only [smoothMerge, hia, hib, he, hr]
+    exact hs
+
+theorem smoothChildren_total {h : Heap} (t : Nat) (hg : Good2 h) : ∃ h', smoothChildren h t = .ok h' := by
+  unfold smoothChildren
+  rw [smoothMarks_eq]
+  exact smoothMerge_total _ h hg (marksOK_marks (view h t))
+
+theorem smoothAll_total : ∀ (ts : List Nat) (h : Heap), Good2 h → ∃ h', smoothAll h ts = .ok h' := by
+  intro ts
+  induction ts with
+  | nil => intro h _; exact ⟨h, rfl⟩
+  | cons t ts ih =>
+    intro h hg
+    obtain ⟨h1, hc⟩ := smoothChildren_total t hg
+    obtain ⟨_, hg1, _⟩ := smoothChildren_exact hg hc
+    obtain ⟨h', hs⟩ := ih h1 hg1
+    exact ⟨h', by simp only [smoothAll, hc]; exact hs⟩
+
+/-- **on a consistent forest `smooth()` never fails** (none of the model's error outcomes — `IndexError`, `ValueError`,
+    `AttributeError` on `None` — can occur) -/
+theorem smooth_total {h : Heap} (t : Nat) (hg : Good2 h) : ∃ h', smooth h t = .ok h' := by
+  obtain ⟨w, hwf⟩ := hg.1
+  obtain ⟨ds, hd, _, _⟩ := descendants_docOrder hwf t
+  obtain ⟨h', hs⟩ := smoothAll_total (t :: ds.filter (fun d => (h.kind d).isTag)) h hg
+  exact ⟨h', by unfold smooth; simp only [hd]; exact hs⟩
 
 end BS.Heap
